@@ -415,10 +415,9 @@ class PiecewiseConstantBirthDeath(Distribution):
                 * torch.log(r[..., 1:] + (1 - r[..., 1:]) * p0)
             )
 
+        # rho-sampled tips: N_i log(rho_i) summed over the sampling events
         mask = (N > 0).logical_and(rho > 0.0)
-        if torch.any(mask):
-            p = torch.masked_select(N, mask) * torch.masked_select(rho, mask).log()
-            log_p += p.squeeze() if log_p.dim() == 0 else p
+        log_p += (N * torch.where(mask, rho, torch.ones_like(rho)).log()).sum(-1)
 
         if self.removal_probability is not None:
             log_p += torch.tensor(2.0).log() * (taxa_shape[-1] - 1)
